@@ -142,8 +142,9 @@ def coq_make(targets, timeout=1500, jobs=16):
 
 def coqc(path, timeout=900):
     """Compile one stand-alone file (cases / assumptions) against the built development."""
-    rc, out, dt = run(["coqc", "-R", COQ, "AP", "-w", "-notation-overridden,-deprecated-hint-without-locality",
-                       os.path.basename(path)], cwd=os.path.dirname(path), timeout=timeout)
+    # long hex literals are deeply nested terms: give the type checker a large stack
+    cmd = "ulimit -s 4000000 2>/dev/null || ulimit -s unlimited 2>/dev/null; exec coqc -R %s AP -w -notation-overridden,-deprecated-hint-without-locality %s" % (COQ, os.path.basename(path))
+    rc, out, dt = run(["bash", "-c", cmd], cwd=os.path.dirname(path), timeout=timeout)
     return rc, out, dt
 
 
